@@ -13,6 +13,9 @@
  *        policy bit0: 0 = the server's loop runs only while the client is blocked in the kernel (or dead),
  *        1 = also after every client system call;  bit1: 1 = at the kill the server has already polled (it acts on
  *        readiness information from before the death: the race between poll() returning and the handler running).
+ *   cdeathx <shm|sock> <scenario> <k> <policy> <r> <m>
+ *        as cdeath, but connection_closed() for the dying client's connection returns non-zero r times (the re-run job
+ *        path) and, with m = 1, the bystander has sent a request that the server has not seen when the client dies.
  *   hsprefix <shm|sock> <n> <stale 0|1>
  *        a raw peer connects, sends the first n bytes of a valid connection request and vanishes.
  *   sdeath <shm|sock> <k> <timeout-ms|-1>
@@ -161,6 +164,7 @@ int __wrap_poll(struct pollfd *fds, nfds_t n, int timeout)
 		if (dead) {
 			if (remaining < 0) hang("poll(-1)");
 			warp_ns += (long long)remaining * 1000000LL;
+			if (warp_ns > 600000000000LL) hang("no return within 600 s (virtual) of the death: poll");
 			return 0;
 		}
 		if (remaining >= 0) {
@@ -182,6 +186,7 @@ int __wrap_sem_timedwait(sem_t *s, const struct timespec *abs)
 		if (now >= deadline) { errno = ETIMEDOUT; return -1; }
 		if (dead) {
 			warp_ns += deadline - now;
+			if (warp_ns > 600000000000LL) hang("no return within 600 s (virtual) of the death: sem_timedwait");
 			errno = ETIMEDOUT;
 			return -1;
 		}
@@ -377,6 +382,7 @@ struct lab { qb_ipcs_connection_t *p; char label; int accept, created, closed, d
 static struct lab L[MAXL];
 static int nlab = 0;
 static int inproc_accepts = 0;
+static int closed_left = 0;       /* cdeathx: connection_closed() of the dying client's connection returns non-zero this many times */
 
 static struct lab *lab_of(qb_ipcs_connection_t *c)
 {
@@ -433,6 +439,7 @@ static int32_t cb_closed(qb_ipcs_connection_t *c)
 	struct lab *l = lab_of(c);
 	if (l) l->closed++;
 	printf("cb closed %c\n", l ? l->label : '?');
+	if (l && l->label == 'D' && closed_left > 0) { closed_left--; return -1; }   /* "call me again" (re-run job) */
 	return 0;
 }
 static void cb_destroyed(qb_ipcs_connection_t *c)
@@ -505,6 +512,29 @@ static int inproc_events(qb_ipcc_connection_t *c)
 	return n;
 }
 
+static int by_midreq = 0, by_sent = 0;
+static void bystander_send(qb_ipcc_connection_t *by)
+{
+	struct my_req rq;
+	if (!by_midreq || by_sent) return;
+	memset(&rq, 0, sizeof rq);
+	rq.hdr.id = REQ_ECHO; rq.hdr.size = sizeof rq; rq.data[0] = 'm';
+	by_sent = (qb_ipcc_send(by, &rq, sizeof rq) == sizeof rq) ? 1 : -1;
+}
+static void bystander_collect(qb_ipcc_connection_t *by)
+{
+	struct my_rsp rsp;
+	ssize_t r = -1;
+	int i;
+	if (!by_midreq) return;
+	for (i = 0; i < 20 && by_sent == 1; i++) {
+		r = qb_ipcc_recv(by, &rsp, sizeof rsp, 0);
+		if (r == sizeof rsp) break;
+		srv_pass();
+	}
+	printf("midreq sent=%d answered=%d\n", by_sent, (by_sent == 1 && r == sizeof rsp && rsp.hdr.id == RSP_ID && rsp.data[0] == 'm') ? 1 : 0);
+}
+
 static void print_trace(struct ka *t)
 {
 	int i;
@@ -534,8 +564,13 @@ static void print_cut(void)
 		ssize_t q = d->p->service->funcs.q_len_get ? d->p->service->funcs.q_len_get(&d->p->request) : -1;
 		int unread = 0;
 		if (d->p->setup.u.us.sock > 0) ioctl(d->p->setup.u.us.sock, FIONREAD, &unread);
-		printf("cut conn state=%d refcount=%d reqq=%ld created=%d notify=%d\n", (int)d->p->state, (int)d->p->refcount, (long)q,
-		       d->created, is_shm ? unread : 0);
+		long evq = -1;
+		if (d->p->state == QB_IPCS_CONNECTION_ESTABLISHED) {
+			if (is_shm) evq = d->p->event.u.shm.rb ? qb_rb_chunks_used(d->p->event.u.shm.rb) : -1;
+			else if (d->p->event.u.us.shared_data) evq = ((struct { int32_t sent; int32_t fc; } *)d->p->event.u.us.shared_data)->sent;
+		}
+		printf("cut conn state=%d refcount=%d reqq=%ld created=%d notify=%d evq=%ld notifiers=%d\n", (int)d->p->state,
+		       (int)d->p->refcount, (long)q, d->created, is_shm ? unread : 0, evq, (int)d->p->outstanding_notifiers);
 	} else if (d) {
 		printf("cut gone closed=%d destroyed=%d\n", d->closed, d->destroyed);
 	} else if (auth) {
@@ -668,12 +703,13 @@ static void case_cdeath(const char *tr, int sc, int k, int policy)
 	ka_init(&t, pid, k);
 	if (ka_attach(&t) != 0) { printf("r attach-failed\n"); ka_kill(&t); return; }
 	t0 = real_ns(CLOCK_MONOTONIC);
-	cur_ka = &t; killed_in_handler = 0; server_blocked_polls = 0;
+	cur_ka = &t; killed_in_handler = 0; server_blocked_polls = 0; by_sent = 0;
 	for (;;) {
 		r = ka_step(&t, 0);
 		if (r == 1) { if (eager && !t.in_syscall) srv_pass(); continue; }
 		if (r == 2) {
 			print_cut();
+			bystander_send(by);            /* the other client is in the middle of a request when this one dies */
 			if (stale) srv_collect();
 			ka_kill(&t);
 			if (stale) srv_dispatch();
@@ -691,7 +727,9 @@ static void case_cdeath(const char *tr, int sc, int k, int policy)
 	cur_ka = NULL;
 	printf("child %s count=%d server_blocked_polls=%d\n", t.killed ? "killed" : "exited", t.count, server_blocked_polls);
 	print_trace(&t);
+	bystander_send(by);
 	srv_quiesce();
+	bystander_collect(by);
 	report_after_death(fd0, ent0, ref0, by);
 	teardown(fdstart, by);
 }
@@ -905,7 +943,9 @@ int main(void)
 		char tr[16];
 		int a, b, c;
 		if (line[0] == '#') { fputs(line, stdout); fflush(stdout); continue; }
-		if (sscanf(line, "cdeath %15s %d %d %d", tr, &a, &b, &c) == 4) case_cdeath(tr, a, b, c);
+		int d, e;
+		if (sscanf(line, "cdeathx %15s %d %d %d %d %d", tr, &a, &b, &c, &d, &e) == 6) { closed_left = d; by_midreq = e; case_cdeath(tr, a, b, c); closed_left = 0; by_midreq = 0; }
+		else if (sscanf(line, "cdeath %15s %d %d %d", tr, &a, &b, &c) == 4) case_cdeath(tr, a, b, c);
 		else if (sscanf(line, "hsprefix %15s %d %d", tr, &a, &b) == 3) case_hsprefix(tr, a, b);
 		else if (sscanf(line, "sdeath %15s %d %d", tr, &a, &b) == 3) { sd_only_disconnect = 0; case_sdeath(tr, a, b); }
 		else if (sscanf(line, "sdeathq %15s %d %d", tr, &a, &b) == 3) { sd_only_disconnect = 1; case_sdeath(tr, a, b); }
